@@ -10,10 +10,11 @@ import random
 
 import numpy as np
 
-from . import core
+from . import core, pylite_tie
 from .core import Case, cZ, cD, clist, cstr, cbool
 
 ID = "C19"
+obligations = pylite_tie.surfer_obligations   # source-regenerated tie (harness/pylite_tie.py, pylite_surfer.v.tmpl)
 PROPS_FILE = "Props/C19.v"
 IMPORTS = "From Verde Require Import Model.Surfer."
 SHARD = 40
